@@ -98,7 +98,7 @@ type CountCase struct {
 }
 
 func genCount(t *rapid.T) CountCase {
-	m := mgen.Gen(t, mgen.Options{MaxCalls: 5, MaxMethods: 4, MaxClasses: 5})
+	m := genCountModel(t)
 	// raise multiplicities: repeat some recorded calls (same site list, 0-5 copies in total)
 	for ci := range m.Classes {
 		for mi := range m.Classes[ci].Methods {
@@ -172,6 +172,41 @@ func checkCount(c CountCase) pbt.Verdict {
 	if sum != resolving {
 		return pbt.Fail("counts sum to %d, the model has %d resolving call sites", sum, resolving)
 	}
+	// a second count over the same model, and the listing order the command uses
+	var again map[string]int
+	if p := pbt.Call(func() { again = count.BuildCallMap(deps) }); p != "" {
+		return pbt.Fail("second BuildCallMap on the same model panicked: %s", p)
+	}
+	if a, b := showCounts(again), showCounts(got); a != b {
+		return pbt.Fail("second BuildCallMap on the same model gives %s, the first gave %s", a, b)
+	}
+	var first string
+	for i := 0; i < 3; i++ {
+		var listed string_helper.PairList
+		if p := pbt.Call(func() { listed = string_helper.SortWord(got) }); p != "" {
+			return pbt.Fail("SortWord panicked: %s", p)
+		}
+		var cells []string
+		rest := map[string]int{}
+		for k, n := range got {
+			rest[k] = n
+		}
+		for _, pr := range listed {
+			if n, ok := rest[pr.Key]; !ok || n != pr.Value {
+				return pbt.Fail("the sorted listing has %s=%d, which is not an entry of the count map %s (or is listed twice)", pr.Key, pr.Value, showCounts(got))
+			}
+			delete(rest, pr.Key)
+			cells = append(cells, fmt.Sprintf("%s=%d", pr.Key, pr.Value))
+		}
+		if len(rest) > 0 {
+			return pbt.Fail("the sorted listing lacks %d of the %d counted methods", len(rest), len(got))
+		}
+		if text := strings.Join(cells, " "); i == 0 {
+			first = text
+		} else if text != first {
+			return pbt.Fail("the %d counts are listed in different orders when the same map is sorted again", len(got))
+		}
+	}
 	v := pbt.Verdict{}
 	multi, repeatedByOne, uncalled, unresolved := false, false, false, sites > resolving
 	for k, n := range want {
@@ -203,6 +238,42 @@ func checkCount(c CountCase) pbt.Verdict {
 	if len(want) >= 3 {
 		v.Classes = append(v.Classes, "called_methods>=3")
 	}
+	simple := map[string]bool{}
+	for _, cl := range c.Model.Classes {
+		if simple[cl.Name] {
+			v.Classes = append(v.Classes, "class_name_in_two_packages")
+			break
+		}
+		simple[cl.Name] = true
+	}
+	nearMiss, tie := false, false
+	for _, cl := range c.Model.Classes {
+		for _, m := range cl.Methods {
+			for _, call := range m.Calls {
+				if declared[call.Full()] || call.Func == "" {
+					continue
+				}
+				for d := range declared {
+					if strings.HasSuffix(d, "."+call.Node+"."+call.Func) || strings.HasSuffix(call.Full(), d) || strings.HasSuffix(d, call.Full()) {
+						nearMiss = true
+					}
+				}
+			}
+		}
+	}
+	if nearMiss {
+		v.Classes = append(v.Classes, "unresolved_site_differs_from_a_method_in_package_only")
+	}
+	byCount := map[int]int{}
+	for _, n := range want {
+		byCount[n]++
+		if byCount[n] == 2 {
+			tie = true
+		}
+	}
+	if tie {
+		v.Classes = append(v.Classes, "two_methods_with_equal_counts")
+	}
 	if c.Cli {
 		v.Classes = append(v.Classes, "cli")
 		if msg := countCLI(deps, want); msg != "" {
@@ -216,6 +287,15 @@ func checkCount(c CountCase) pbt.Verdict {
 	sort.Strings(lines)
 	v.Canon = fmt.Sprintf("count|%v|%d|%v", lines, sites, c.Cli)
 	return v
+}
+
+func showCounts(m map[string]int) string {
+	var cells []string
+	for k, n := range m {
+		cells = append(cells, fmt.Sprintf("%s=%d", k, n))
+	}
+	sort.Strings(cells)
+	return "[" + strings.Join(cells, " ") + "]"
 }
 
 func countCLI(deps []core_domain.CodeDataStruct, want map[string]int) string {
@@ -778,6 +858,7 @@ func checkEval(c EvalCase) pbt.Verdict {
 	want := expectEval(c)
 	resetJava()
 	var result evaluator.EvaluateModel
+	var nodesKept, identsKept []core_domain.CodeDataStruct
 	if p := pbt.Call(func() {
 		quiet(func() {
 			src := filepath.Join(dir, "proj")
@@ -785,6 +866,7 @@ func checkEval(c EvalCase) pbt.Verdict {
 			idents := idApp.AnalysisPath(src)
 			fullApp := javaapp.NewJavaFullApp()
 			nodes := fullApp.AnalysisPath(src, idents)
+			nodesKept, identsKept = nodes, idents
 			result = evaluate.NewEvaluateAnalyser().Analysis(nodes, idents)
 		})
 	}); p != "" {
@@ -807,6 +889,18 @@ func checkEval(c EvalCase) pbt.Verdict {
 		if !seen[it] {
 			return pbt.Fail("Nullable.Items lacks %q (returns null on some path or is annotated); listed: %v\n%s", it, mgen.SortedCopy(result.Nullable.Items), dump(files))
 		}
+	}
+	// the same evaluation once more on the same parsed lists: nothing may have been used up,
+	// accumulated or rewritten by the first one
+	var again evaluator.EvaluateModel
+	if p := pbt.Call(func() { again = evaluate.NewEvaluateAnalyser().Analysis(nodesKept, identsKept) }); p != "" {
+		return pbt.Fail("second evaluation of the same lists panicked: %s\n%s", p, dump(files))
+	}
+	if msg := compareEval("second Analyser.Analysis on the same lists", want, again.Summary.ClassCount, again.Summary.MethodCount, again.Summary.StaticMethodCount, again.Summary.UtilsCount); msg != "" {
+		return pbt.Fail("%s\n%s", msg, dump(files))
+	}
+	if a, b := strings.Join(mgen.SortedCopy(again.Nullable.Items), " "), strings.Join(mgen.SortedCopy(result.Nullable.Items), " "); a != b {
+		return pbt.Fail("second Analyser.Analysis on the same lists: Nullable.Items [%s], the first evaluation gave [%s]\n%s", a, b, dump(files))
 	}
 	if c.Cli {
 		if msg := evalCLI(dir, want); msg != "" {
@@ -897,7 +991,15 @@ func evalCLI(dir string, w evalWant) string {
 func classifyEval(c EvalCase, w evalWant) pbt.Verdict {
 	v := pbt.Verdict{}
 	set := map[string]bool{}
+	simple := map[string]int{}
 	for _, cl := range c.Classes {
+		simple[cl.Name]++
+		if simple[cl.Name] == 2 {
+			set["class_name_in_two_packages"] = true
+		}
+		if strings.Contains(cl.Name, "Util") && !strings.HasSuffix(cl.Name, "Util") && !strings.HasSuffix(cl.Name, "Utils") {
+			set["util_not_at_end_of_name"] = true
+		}
 		if strings.Contains(cl.Name, "Util") {
 			set["util_class"] = true
 		}
@@ -910,13 +1012,22 @@ func classifyEval(c EvalCase, w evalWant) pbt.Verdict {
 			for i, x := range m.Mods {
 				if strings.HasPrefix(x, "@") {
 					annPos = i
-					if x == "@Nullable" || x == "@CheckForNull" {
+					if nullAnnotations[x] {
 						set["nullable_annotation"] = true
 						if i > 0 {
 							set["nullable_annotation_not_first"] = true
 						}
+						if strings.Contains(x, ".") {
+							set["nullable_annotation_with_package"] = true
+						}
+						if m.Generic {
+							set["nullable_annotation_on_generic_method"] = true
+						}
 					} else {
 						set["other_annotation"] = true
+						if strings.Contains(x, "Null") {
+							set["annotation_resembling_nullable"] = true
+						}
 					}
 				} else {
 					plain = append(plain, x)
@@ -926,6 +1037,9 @@ func classifyEval(c EvalCase, w evalWant) pbt.Verdict {
 			for i, x := range plain {
 				if x == "static" {
 					set["static_method"] = true
+					if m.Generic {
+						set["static_generic_method"] = true
+					}
 					if i < len(plain)-1 {
 						set["static_not_last_modifier"] = true
 						v.NonTrivial = true
@@ -944,12 +1058,49 @@ func classifyEval(c EvalCase, w evalWant) pbt.Verdict {
 				if s.Kind == "ifreturn" {
 					sites = append(sites, s.Expr)
 				}
+				if strings.HasSuffix(s.Kind, "return") && s.Kind != "ifreturn" {
+					sites = append(sites, s.Expr)
+					if nullKinds[s.Expr] {
+						set["return_null_in_loop_catch_switch"] = true
+					}
+				}
 				if s.Kind == "ifelse" {
 					sites = append(sites, s.Expr, s.Else)
 				}
 			}
 			if m.Last != "" && m.Last != "bare" {
 				sites = append(sites, m.Last)
+			}
+			hasMention, hasNullSite, nullAnn := false, false, false
+			for _, k := range sites {
+				switch k {
+				case "nullGuard", "nullText", "nullIdent", "nullArgCmp", "eqNull", "neNull", "nullCount":
+					hasMention = true
+				}
+				hasNullSite = hasNullSite || nullKinds[k]
+			}
+			for _, x := range m.Mods {
+				nullAnn = nullAnn || nullAnnotations[x]
+			}
+			if hasMention {
+				set["return_mentions_null"] = true
+				if !hasNullSite && !nullAnn {
+					set["not_nullable_although_null_is_mentioned"] = true
+				}
+			}
+			for _, p := range m.Params {
+				if p.Ann != "" {
+					set["annotated_parameter"] = true
+				}
+			}
+			for _, x := range m.Before {
+				set["members_between_methods"] = true
+				if strings.HasPrefix(x, "@") {
+					set["annotated_field_before_method"] = true
+				}
+			}
+			if m.Generic {
+				set["generic_method"] = true
 			}
 			for i, k := range sites {
 				if !nullKinds[k] {
@@ -1000,6 +1151,32 @@ type ConceptCase struct {
 
 var plainWord = regexp.MustCompile(`^[a-z]{2,12}$`)
 
+// Other shapes of a word inside a camel-case name: capitalised as the first word of the name
+// (PascalCase, "LoadUser"), or an acronym in capitals ("parseXMLFile", "getURL"). Two acronyms
+// never touch (where one ends and the next begins would be anybody's guess).
+var (
+	capitalWord = regexp.MustCompile(`^[A-Z][a-z]{1,11}$`)
+	acronymWord = regexp.MustCompile(`^[A-Z]{2,5}$`)
+	acronyms    = []string{"XML", "URL", "ID", "HTTP", "JSON", "SQL", "IO", "API", "DTO", "BY", "GET", "ALL"}
+)
+
+// wordsOK says whether the words of one method name are inside the domain of the check.
+func wordsOK(words []string) bool {
+	for i, w := range words {
+		switch {
+		case plainWord.MatchString(w):
+		case i == 0 && capitalWord.MatchString(w):
+		case acronymWord.MatchString(w):
+			if i > 0 && acronymWord.MatchString(words[i-1]) {
+				return false
+			}
+		default:
+			return false
+		}
+	}
+	return len(words) > 0
+}
+
 var domainWords = []string{"user", "order", "account", "invoice", "price", "customer", "payment", "report", "token", "session", "ledger", "cargo", "voyage", "route", "stock", "basket", "tax", "refund", "owner", "branch"}
 
 func stopWordLists() (all map[string]bool, english, tech []string) {
@@ -1022,7 +1199,7 @@ func stopWordLists() (all map[string]bool, english, tech []string) {
 func camel(words []string) string {
 	var b strings.Builder
 	for i, w := range words {
-		if i == 0 {
+		if i == 0 || w == "" {
 			b.WriteString(w)
 		} else {
 			b.WriteString(strings.ToUpper(w[:1]) + w[1:])
@@ -1043,9 +1220,32 @@ func genConcept(t *rapid.T) ConceptCase {
 			return rapid.SampledFrom(english).Draw(t, "englishStopWord")
 		}
 	})
-	method := rapid.SliceOfN(word, 1, 5)
+	method := rapid.Custom(func(t *rapid.T) []string {
+		words := rapid.SliceOfN(word, 1, 5).Draw(t, "words")
+		switch rapid.IntRange(0, 7).Draw(t, "nameShape") {
+		case 6: // PascalCase
+			words[0] = strings.ToUpper(words[0][:1]) + words[0][1:]
+		case 7: // one word is an acronym in capitals
+			i := rapid.IntRange(0, len(words)-1).Draw(t, "acronymAt")
+			words[i] = rapid.SampledFrom(acronyms).Draw(t, "acronym")
+		}
+		return words
+	})
 	class := rapid.SliceOfN(method, 0, 5)
-	return ConceptCase{Classes: rapid.SliceOfN(class, 1, 4).Draw(t, "classes"), Cli: rapid.IntRange(0, 49).Draw(t, "cli") == 49}
+	classes := rapid.SliceOfN(class, 1, 4).Draw(t, "classes")
+	// the same method name once more, in the same or in another class
+	var all [][]string
+	for _, cl := range classes {
+		all = append(all, cl...)
+	}
+	if len(all) > 0 {
+		for k := rapid.IntRange(0, 2).Draw(t, "repeatedNames"); k > 0; k-- {
+			src := rapid.SampledFrom(all).Draw(t, "repeatedName")
+			ci := rapid.IntRange(0, len(classes)-1).Draw(t, "repeatedIn")
+			classes[ci] = append(classes[ci], append([]string{}, src...))
+		}
+	}
+	return ConceptCase{Classes: classes, Cli: rapid.IntRange(0, 49).Draw(t, "cli") == 49}
 }
 
 func checkConcept(c ConceptCase) pbt.Verdict {
@@ -1054,13 +1254,26 @@ func checkConcept(c ConceptCase) pbt.Verdict {
 	var deps []core_domain.CodeDataStruct
 	want, total, stopped := 0, 0, 0
 	distinct := map[string]int{}
+	nameCount := map[string]int{}
+	repeatedName, pascal, acronym := false, false, false
 	for i, methods := range c.Classes {
 		ds := core_domain.CodeDataStruct{NodeName: fmt.Sprintf("C%d", i), Package: "app", Type: "Class"}
 		for _, words := range methods {
-			for _, w := range words {
-				if !plainWord.MatchString(w) {
-					return pbt.Verdict{Skip: true}
+			if !wordsOK(words) {
+				return pbt.Verdict{Skip: true}
+			}
+			full := camel(words)
+			if nameCount[full]++; nameCount[full] == 2 {
+				repeatedName = true
+			}
+			for wi, w := range words {
+				if wi == 0 && capitalWord.MatchString(w) {
+					pascal = true
 				}
+				if acronymWord.MatchString(w) {
+					acronym = true
+				}
+				w = strings.ToLower(w)
 				total++
 				if stop[w] {
 					stopped++
@@ -1102,6 +1315,15 @@ func checkConcept(c ConceptCase) pbt.Verdict {
 	}
 	if want == 0 {
 		v.Classes = append(v.Classes, "only_stop_words_or_empty")
+	}
+	if repeatedName {
+		v.Classes = append(v.Classes, "method_name_occurs_twice")
+	}
+	if pascal {
+		v.Classes = append(v.Classes, "name_starts_with_capital")
+	}
+	if acronym {
+		v.Classes = append(v.Classes, "name_with_acronym")
 	}
 	if c.Cli {
 		v.Classes = append(v.Classes, "cli")
